@@ -95,9 +95,20 @@ def build(n, arcs, names=NAMES):
     """The DAG with the given arcs, reached by one of several histories chosen deterministically from the arcs: plain
     insertion; insertion with queries of every family half way (warm caches); a detour through an extra node and an extra
     edge that are deleted again; a copy; a dictionary round trip."""
-    mode = (n * 7 + sum((i + 1) * (3 * a + b + 1) for i, (a, b) in enumerate(arcs))) % 8
+    mode = (n * 7 + sum((i + 1) * (3 * a + b + 1) for i, (a, b) in enumerate(arcs))) % 9
     g = CausalGraph()
     ids = [names[i] for i in range(n)]
+    touched = {v for e in arcs for v in e}
+    if mode == 8:
+        # the nodes without edges are added LAST, one by one with add_node, after every family of queries has been asked
+        # (cached is_dag / networkx view, then a node-only mutation, then the recorded queries)
+        for a, b in arcs:
+            g.add_edge(names[a], names[b])
+        _warm_queries(g, [names[i] for i in sorted(touched)])
+        for i in range(n):
+            if i not in touched:
+                g.add_node(names[i])
+        return g
     g.add_nodes_from(ids)
     half = len(arcs) // 2
     for k, (a, b) in enumerate(arcs):
